@@ -11,7 +11,7 @@ SOURCE_ATOMS = {
     'C14': '(the operator table of `_operator_filter`)',
     'C15': '(the S3 key layout constants)',
     'C16': '(the two comparison operators of the last-modified window, the day-folder count of `_get_id_prefixes`)',
-    'C17': '(`sampling_rate >= 1` and `sample_value <= sampling_rate` in `_should_sample_active_recording`)',
+    'C17': '(`sampling_rate >= 1` and `sample_value <= sampling_rate` in `_should_sample_active_recording`; `ratio >= 1` and `random() <= ratio` in the S3 cassette\'s `_should_sample`)',
     'C18': '(the reserved operation output alias)',
     'C20': '(`file_size_in_mb > limit`, the above-limit placeholder bytes, the default limit)',
 }
